@@ -4,7 +4,8 @@
 From Coq Require Import List NArith QArith Bool Reals.
 Import ListNotations.
 Require Import Clarabel.Base.Dyadic.
-Require Import Clarabel.Solver.Skeleton Clarabel.Solver.Spec Clarabel.Solver.Lemmas Clarabel.Solver.Interior Clarabel.Solver.StepLen.
+Require Import Clarabel.Term.Eval.
+Require Import Clarabel.Solver.Skeleton Clarabel.Solver.Spec Clarabel.Solver.Lemmas Clarabel.Solver.Interior Clarabel.Solver.InteriorAll Clarabel.Solver.StepLen.
 
 Theorem C07_prefix_independent :
   forall A azero a_lt_switch a_le_term,
@@ -20,6 +21,28 @@ Theorem C07_interior_soc_sound :
     (0 < d2Q t)%Q /\
     (Qsum (map (fun x => d2Q x * d2Q x) r) < d2Q t * d2Q t * (1 + d2Q soc_slack))%Q.
 Proof. exact soc_int_sound. Qed.
+
+(** every cone kind: a snapshot accepted by [c_interior_all] has positive scalars and, block by
+    block, meets [cone_intP]: exact strict positivity / strict SOC inequality, and for the
+    exponential, power, generalised power and PSD cones the exact sign conditions of interior
+    points together with certified membership of the recorded point or of the point moved by
+    the relative allowance 2^-40 along the interior direction *)
+Theorem C07_interior_all_sound :
+  forall (K : list coneD) (s z : list dy) (tau kappa : dy),
+    c_interior_all K s z tau kappa = 0%N ->
+    (0 < d2R tau)%R /\ (0 < d2R kappa)%R /\
+    Forall (fun kc => cone_intP false (fst kc) (snd kc)) (chunks K s) /\
+    Forall (fun kc => cone_intP true (fst kc) (snd kc)) (chunks K z).
+Proof. exact c_interior_all_sound. Qed.
+
+(** non-vacuity: an interior exponential-cone / PSD pair is accepted, a boundary point and a
+    point outside are rejected *)
+Example C07_interior_all_example :
+  c_interior_all [KExp; KPSD 2] [D 0 0; D 1 0; D 2 0; D 2 0; D 1 0; D 2 0]
+                                [D (-1) 0; D 0 0; D 1 0; D 1 0; D 0 0; D 1 0] (D 1 0) (D 1 0) = 0%N /\
+  c_interior_all [KExp] [D 0 0; D 1 0; D 1 (-1)] [D (-1) 0; D 0 0; D 1 0] (D 1 0) (D 1 0) = 1%N /\
+  c_interior_all [KPSD 2] [D 1 0; D 2 0; D 1 0] [D 1 0; D 0 0; D 1 0] (D 1 0) (D 1 0) = 1%N.
+Proof. vm_compute. repeat split; reflexivity. Qed.
 
 (** the damped step computed by calc_step_length keeps the homogenisation scalars positive
     (reals; [cap_R] is the cap the code passes to the cones, [az], [as_] their answers) *)
